@@ -35,10 +35,11 @@ def run_check(tier):
         if c['callop']: d += ['CALLOP']
         if witness: d.append('WITNESS')
         return d
-    def one(c):
+    def one(c, loose=False):
         hb = max(c['nks'][d] + 2 * c['orders'][d] for d in range(c['nd'])) + 2
         # termination bound for the library loops: dimension loop (nd) and bisection (<= log2(nknots)+1 halvings)
         irb = max(c['nd'], int(math.log2(max(c['nks']))) + 2) + 1
+        if loose: irb = hb
         r = run_instance(lib if c['callop'] else lib_small, HARNESS, inst_name(c), defs(c), unwind=hb, ir_unwind=irb, timeout=budget)
         r['case'] = c; r['unwind'] = hb
         return r
